@@ -395,3 +395,27 @@ def c12(res, tier, rng, wd):
                            "per-request timeouts, outcome sequences over {timeout, success, exception, bad reply} up to length 6 for limits "
                            "N in {none,1,2,3,5} followed by a new connection, and a partial frame left by a dying connection followed by "
                            "timely replies on the next one")
+
+
+@check("C13")
+def c13(res, tier, rng, wd):
+    scs = e2.gen_c13(rng, tier == "thorough")
+    run_e2(res, "C13", scs, wd, "c13")
+    res.assumptions = E2_ASSUME + ["the production TcpChannelTask obtains its connections from the verif-hooks connector "
+                                   "(same select! against fail_requests); real sockets / serial ports are exercised by the black-box slice"]
+    return res.finish(rule="every command / fault (submit, enable, disable, decode, shutdown, drop handles, abort, connect ok / "
+                           "refused, EOF, garbage, write error, timer) at every life-cycle location (disabled, connecting, waiting after "
+                           "failed connect, connected idle / awaiting, waiting after disconnect, disabled again) plus random scripts; "
+                           "listener events, connection attempts and completions must be outputs of Client.tla steps; FailFast "
+                           "(no request left queued while down at quiescence) is an invariant")
+
+
+@check("C14")
+def c14(res, tier, rng, wd):
+    scs = e2.gen_c14(rng, tier == "thorough")
+    run_e2(res, "C14", scs, wd, "c14")
+    res.assumptions = E2_ASSUME + ["delays are observed in virtual milliseconds: the announced delay (listener) and the instant of the next connection attempt"]
+    return res.finish(rule="(min, max) grid incl. min = max, max < 2 min, max not a power-of-two multiple; patterns of k failed "
+                           "connects, success, lost connection (EOF, garbage, consecutive-timeout limit), disable/enable; the script waits "
+                           "delay-1 and then 1 ms, so an attempt that starts earlier or later than the announced delay, a delay that is not "
+                           "min*2^(k-1) capped at max, or a missing reset after success is a rejection")
